@@ -129,7 +129,20 @@ fn roundtrip<P: Packetize + PartialEq2>(t: u8, bytes0: &[u8]) -> Vec<i64> {
         let o = P::try_from(b0.clone()).ok()?;
         let b2 = o.to_bytes();
         let o2 = P::try_from(b2.clone()).ok()?;
-        let ok = o.same(&o2) && same_mod_rotation(t, &b0, &b2);
+        // the decoded rotation is the one the wire angles (radians: roll, pitch, yaw about x, y, z, applied in that
+        // order) describe - judged against an f64 reference, not against the implementation's own encoder
+        let mut wire_ok = true;
+        for ((s0, _), r) in rot_ranges(t, &b0).into_iter().zip(o.rots()) {
+            let f = |k: usize| f32::from_bits(u32::from_be_bytes([b0[s0 + 4 * k], b0[s0 + 4 * k + 1], b0[s0 + 4 * k + 2], b0[s0 + 4 * k + 3]]));
+            let (roll, pitch, yaw) = (f(0), f(1), f(2));
+            if !(roll.is_finite() && pitch.is_finite() && yaw.is_finite()) { continue; }
+            let (sr, cr) = (roll as f64).sin_cos(); let (sp, cp) = (pitch as f64).sin_cos(); let (sy, cy) = (yaw as f64).sin_cos();
+            let m = [[cy * cp, cy * sp * sr - sy * cr, cy * sp * cr + sy * sr],
+                     [sy * cp, sy * sp * sr + cy * cr, sy * sp * cr - cy * sr],
+                     [-sp, cp * sr, cp * cr]];
+            for i in 0..3 { for j in 0..3 { if !((r[(i, j)] as f64 - m[i][j]).abs() < 5e-4) { wire_ok = false; } } }
+        }
+        let ok = o.same(&o2) && same_mod_rotation(t, &b0, &b2) && wire_ok;
         let frame: Vec<u8> = rt().block_on(async {
             // a transport that takes a few bytes per write and is not always ready (a socket with a nearly full
             // buffer): what arrives must still be the whole frame
@@ -155,11 +168,13 @@ fn roundtrip<P: Packetize + PartialEq2>(t: u8, bytes0: &[u8]) -> Vec<i64> {
 }
 
 /// object equality with float tolerance where the implementation re-parameterises angles
-trait PartialEq2 { fn same(&self, o: &Self) -> bool; }
+trait PartialEq2 { fn same(&self, o: &Self) -> bool; fn rots(&self) -> Vec<nalgebra::Rotation3<f32>> { vec![] } }
 macro_rules! eq_exact { ($($t:ty),*) => { $(impl PartialEq2 for $t { fn same(&self, o: &Self) -> bool { self.to_bytes() == o.to_bytes() } })* } }
 eq_exact!(SessionError, Request, Session, Instance, ModuleStatus, Motion, Gnss, Engine, Control);
-impl PartialEq2 for Target { fn same(&self, o: &Self) -> bool { same_mod_rotation(T_TARGET, &self.to_bytes(), &o.to_bytes()) } }
-impl PartialEq2 for Rotator { fn same(&self, o: &Self) -> bool { same_mod_rotation(T_ROTATOR, &self.to_bytes(), &o.to_bytes()) } }
+impl PartialEq2 for Target { fn same(&self, o: &Self) -> bool { same_mod_rotation(T_TARGET, &self.to_bytes(), &o.to_bytes()) }
+    fn rots(&self) -> Vec<nalgebra::Rotation3<f32>> { vec![self.orientation.to_rotation_matrix()] } }
+impl PartialEq2 for Rotator { fn same(&self, o: &Self) -> bool { same_mod_rotation(T_ROTATOR, &self.to_bytes(), &o.to_bytes()) }
+    fn rots(&self) -> Vec<nalgebra::Rotation3<f32>> { vec![self.rotator] } }
 impl PartialEq2 for Actor { fn same(&self, o: &Self) -> bool { same_mod_rotation(T_ACTOR, &Packetize::to_bytes(self), &Packetize::to_bytes(o)) } }
 
 fn roundtrip_any(t: u8, b: &[u8]) -> Vec<i64> {
